@@ -17,7 +17,7 @@ LEVEL_TEXT = ("Static structural proof of necessary conditions: (R17.1/R17.2) al
               "the validator call with its raise dominates dispatcher construction; (R17.5) every registered class defines "
               "PARAMS, do_op and validate_input_data; (R17.6) in the dispatcher loop each do_op is bracketed by the "
               "n/a->NaN and NaN->n/a conversions. What each operation computes is NOT decided.")
-LEVEL_EXTRA = 'Added after the seeded evaluation: (R17.3) optional keys of nested item parameters are not subscripted unguarded. Added after the hunting pass: (R17.7) in the operations the first row of a boolean-mask selection is taken only under an emptiness test.'
+LEVEL_EXTRA = 'Added after the seeded evaluation: (R17.3) optional keys of nested item parameters are not subscripted unguarded. Added after the hunting pass: (R17.7) in the operations the first row of a boolean-mask selection is taken only under an emptiness test. (R17.8) operation constructors never mutate their parameters; (R17.9) a do_op that selects rows returns through reset_index(drop=True).'
 
 NAMED = ["remove_rows", "remove_columns", "rename_columns", "reorder_columns", "factor_column", "remap_columns",
          "merge_consecutive", "split_rows"]
@@ -320,3 +320,49 @@ def run(ctx):
         ctx.check(ok_post, "R17.6", ro.qualname, "post_proc_data after " + norm(c)[:40], loc(ro, c),
                   "post_proc_data does not follow do_op on every path of the iteration: NaN cells are handed to the next "
                   "operation / returned instead of n/a", desc="post_proc_data follows do_op in every iteration")
+
+    # ---------------- R17.8: an operation's constructor leaves the caller's parameter dictionary as it is
+    ctx.rule("R17.8", "the constructors of the registered operations never mutate their parameters argument")
+
+    def forbid_params(fi, o):
+        ps = fi.params()
+        return o[0] == "P" and len(ps) >= 2 and o[1] == ps[1]
+    inits = [cls.find_method("__init__") for _, cls, _ in named if cls.find_method("__init__") is not None]
+    ctx.floor("R17.8", "operation constructors", len(inits), 8)
+    check_no_mutation(ctx, "R17.8", inits, forbid_params, "the caller's parameter dictionary",
+                      "the operation list the caller validated is changed by building the dispatcher (an added default can make the same "
+                      "list fail validation next time)")
+
+    # ---------------- R17.9: an operation that selects rows hands back a table with a fresh row index
+    ctx.rule("R17.9", "a do_op that selects rows by a mask returns the table through reset_index(drop=True)")
+    n_sel = 0
+    for nm, cls, do in named:
+        sels = [x for x in walk_no_nested(do.node) if isinstance(x, ast.Subscript) and isinstance(x.value, ast.Attribute)
+                and x.value.attr == "loc" and isinstance(x.slice, ast.Tuple) and len(x.slice.elts) == 2
+                and isinstance(x.slice.elts[1], ast.Slice) and isinstance(x.ctx, ast.Load)]
+        if not sels:
+            continue
+        n_sel += 1
+        ctx.saw(do)
+        resets = [x for x in walk_no_nested(do.node) if isinstance(x, ast.Call) and call_name(x) == "reset_index"
+                  and any(kw.arg == "drop" and isinstance(kw.value, ast.Constant) and kw.value.value is True for kw in x.keywords)]
+        vdo = view(ctx, do)
+        rets = [n for n in vdo.cfg.nodes if n.kind == "stmt" and isinstance(n.ast, ast.Return) and n.ast.value is not None]
+        sel_nodes = [vdo.node(x) for x in sels]
+        reset_nodes = [vdo.node(x) for x in resets]
+        bad = []
+        for r in rets:
+            # a return reachable from a row selection without passing a reset_index
+            for sn in sel_nodes:
+                if sn is None:
+                    continue
+                if any(x is r.ast.value or any(x is y for y in ast.walk(r.ast.value)) for x in resets):
+                    continue
+                if r in vdo.cfg.reachable_from(sn, True, avoid={rn for rn in reset_nodes if rn is not None and rn is not sn}) and \
+                        not (sn in [rn for rn in reset_nodes if rn is not None]):
+                    bad.append(r)
+        ctx.check(not bad, "R17.9", do.qualname, "row selection -> return", loc(do, do.node),
+                  "rows are selected by a mask and the table is returned with the old row labels: the next operation in the list "
+                  "(merge_consecutive reads labels as positions) raises IndexError/KeyError or merges the wrong rows",
+                  desc="%s: returned through reset_index(drop=True)" % cls.name)
+    ctx.floor("R17.9", "row-selecting operations", n_sel, 2)
